@@ -77,28 +77,43 @@ func renderSends(rs []sendRec) string {
 	return joinOr(out, ";")
 }
 
-// handleEventsGoroutines returns the ids of the goroutines whose stack (frames or "created by" line) mentions HandleEvents.
-func handleEventsGoroutines() map[string]bool {
-	buf := make([]byte, 1<<20)
-	n := runtime.Stack(buf, true)
-	ids := map[string]bool{}
-	for _, blk := range strings.Split(string(buf[:n]), "\n\n") {
-		if strings.Contains(blk, "HandleEvents") && strings.HasPrefix(blk, "goroutine ") {
-			ids[strings.SplitN(blk[len("goroutine "):], " ", 2)[0]] = true
-		}
-	}
-	return ids
+// goroutineDump: id -> (creator id, stack text) of every goroutine alive now.
+type gInfo struct {
+	parent string
+	text   string
 }
 
-// sendersDone waits until no goroutine started by the HandleEvents call just made is left: every goroutine's stack (its
-// frames and its "created by" line) is inspected, so a sender that has not even been scheduled yet is seen. `before` = the
-// goroutines that were already inside a HandleEvents (left over from an op that hung). Exact, not timing dependent; gives
-// up after ~10 s.
+func goroutineDump() (self string, all map[string]gInfo) {
+	buf := make([]byte, 1<<20)
+	n := runtime.Stack(buf, true)
+	all = map[string]gInfo{}
+	for k, blk := range strings.Split(string(buf[:n]), "\n\n") {
+		if !strings.HasPrefix(blk, "goroutine ") {
+			continue
+		}
+		id := strings.SplitN(blk[len("goroutine "):], " ", 2)[0]
+		if k == 0 {
+			self = id // runtime.Stack lists the calling goroutine first
+		}
+		parent := ""
+		if i := strings.LastIndex(blk, " in goroutine "); i >= 0 {
+			parent = strings.TrimSpace(strings.SplitN(blk[i+len(" in goroutine "):], "\n", 2)[0])
+		}
+		all[id] = gInfo{parent, blk}
+	}
+	return
+}
+
+// sendersDone waits until every goroutine that did not exist when `before` was taken — other than the op's own — has finished:
+// the senders a HandleEvents spawns, whatever function spawns them and however deep. During an op nothing but the code under
+// test starts goroutines in the driver process, so nothing depends on function names; a goroutine that has not been scheduled
+// yet is seen too. Exact, not timing dependent; gives up after ~10 s.
 func sendersDone(before map[string]bool) bool {
 	for i := 0; i < 10000; i++ {
+		self, all := goroutineDump()
 		left := false
-		for id := range handleEventsGoroutines() {
-			if !before[id] {
+		for id := range all {
+			if id != self && !before[id] {
 				left = true
 			}
 		}
@@ -114,11 +129,20 @@ func sendersDone(before map[string]bool) bool {
 	return false
 }
 
+func liveGoroutines() map[string]bool {
+	_, all := goroutineDump()
+	ids := map[string]bool{}
+	for id := range all {
+		ids[id] = true
+	}
+	return ids
+}
+
 // collectRaw runs f (a HandleEvents call) with a roomy buffered channel and returns everything that was sent
 // (cls = err | panic | stuck when the call did not complete normally).
 func collectRaw(f func(ch chan []*message.Message) error) (sent [][]*message.Message, cls string) {
 	ch := make(chan []*message.Message, 4096)
-	before := handleEventsGoroutines()
+	before := liveGoroutines()
 	cls = guarded(func() error { return f(ch) })
 	if cls != "ok" {
 		return nil, cls
